@@ -360,6 +360,16 @@ def campaign(prop, exe, wd, cases, tag, verdict, known, stats, do_model=True):
             viols = [{'class': 'oracle-crash', 'what': 'oracle raised %r' % (e,)}]
         if isinstance(viols, dict):
             viols = [viols]
+        viols = list(viols)
+        # property predicate evaluated by the (verified) Coq checker on the implementation's output
+        if hasattr(prop, 'oracle_model') and c['id'] in model:
+            m0 = model[c['id']]
+            if not (isinstance(m0, tuple) and m0 and m0[0] == '#error'):
+                try:
+                    mv = prop.oracle_model(c, ires, m0) or []
+                except Exception as e:  # noqa
+                    mv = [{'class': 'oracle-crash', 'what': 'oracle_model raised %r' % (e,)}]
+                viols += [mv] if isinstance(mv, dict) else list(mv)
         for v in viols:
             fid = match_known(prop, known, c, ires, v)
             if fid:
@@ -497,7 +507,7 @@ def main_check(pid, tier, seed):
             srng = SplitMix(seed * 1000003 + r + 1).fork(pid + '/search')
             cases = prop.generate(srng, 'thorough', prop.SIZES.get('search', prop.SIZES['thorough']))
             before = len(verdict.violations)
-            campaign(prop, exe, wd, cases, 's%d_' % r, verdict, known, stats, do_model=False)
+            campaign(prop, exe, wd, cases, 's%d_' % r, verdict, known, stats, do_model=hasattr(prop, 'oracle_model') and model_ok)
             if len(verdict.violations) > before:
                 found = True
                 break
